@@ -29,7 +29,7 @@ CHUNKINGS = {
     "dir_split": lambda da: da.chunk({"dir": 3}),
     "freq_dir_split": lambda da: da.chunk({"time": 2, "freq": 2, "dir": 4}),
 }
-OPS = [op for op in S.ALL_OPS if op not in ("interp_like",)] + S.FIT_OPS
+OPS = [op for op in S.ALL_OPS if op not in ("interp_like",)] + S.FIT_OPS + S.TRACK_OPS
 
 
 def sched_cfg(tasks, shapes, w, gil, live=True):
